@@ -329,6 +329,9 @@ func (o *Op) String() string {
 	switch o.Name {
 	case "NewList", "NewObject":
 		fmt.Fprintf(&b, "(%v)", o.Vals)
+		if o.Derived {
+			b.WriteString(" as a derived structure")
+		}
 	case "NewListOf":
 		fmt.Fprintf(&b, "(%v,%d)", o.Vals[0], o.I)
 	case "LAdd", "OSet":
@@ -373,6 +376,7 @@ type Machine struct {
 	vars    []any
 	pred    bool
 	predMsg string
+	held    []heldResult // Go values handed out earlier (slices, maps, strings): they must stay what they were
 	hung    bool // an operation did not return: the abandoned goroutine may still touch the containers, nothing further is executed
 }
 
@@ -533,6 +537,7 @@ func (m *Machine) execNow(o *Op) (outcome string) {
 		case "LSlice":
 			l := m.list(o.R)
 			sl := l.Slice()
+			m.hold("Slice", sl)
 			items := make([]string, len(sl))
 			for i, x := range sl {
 				items[i] = hvalAnyCoq(x)
@@ -624,6 +629,7 @@ func (m *Machine) execNow(o *Op) (outcome string) {
 			result, hasResult = vs, true
 		case "ODict":
 			d := m.object(o.R).Dict()
+			m.hold("Dict", d)
 			keys := make([]string, 0, len(d))
 			for k := range d {
 				keys = append(keys, k)
@@ -770,11 +776,34 @@ func (p *Prog) do(o *Op) string {
 		p.broken = true
 		h = 0
 	}
+	// serialising is an observation: in the profiles about deriving operations and serialisation every live container is serialised
+	// after every step (results discarded); nothing may change by it
+	if (p.prof == "C09x" || p.prof == "C02x" || p.prof == "C16x") && !p.broken && !m.hung {
+		if try(func() {
+			for _, v := range m.vars {
+				switch c := v.(type) {
+				case at.List:
+					_ = c.String()
+					_ = c.FormatString(1)
+				case at.Object:
+					_ = c.String()
+					_ = c.FormatString(1)
+				}
+			}
+		}) {
+			m.fail("String()/FormatString(1) of a live container panicked after %s", o.String())
+		} else if h2 := canonEnv(m.vars, nil); h2 != h {
+			m.fail("String()/FormatString(1) changed a container (canonical form of the heap differs before and after serialising, step %s)", o.String())
+		}
+	}
 	p.ops = append(p.ops, o)
 	p.trace = append(p.trace, fmt.Sprintf("(%s, %d)", xOutcome(oc), h))
 	p.lines = append(p.lines, fmt.Sprintf("%s => %s | %s", o.String(), oc, txt.String()))
 	p.tags[o.Name] = true
 	// generic predicates on the implementation
+	if !p.broken && !m.hung {
+		m.verifyHeld(o.String())
+	}
 	if oc == "Pan" && singleIndexOp(o) && h != before {
 		m.fail("panicking %s modified the heap", o.Name)
 	}
@@ -881,6 +910,20 @@ func (p *Prog) boundaryIndex(n int) int64 {
 
 var heapKeys = []string{"", "a", "b", "c", "a.b", "#0", ".x", "\"q\"", "é", "k", "a ", " a", "k\n"}
 
+// keys that are not well-formed UTF-8 (Go strings are byte strings; a map key is compared bytewise): only in the profiles that
+// never serialise (String() replaces ill-formed bytes, which the data comparison of the x-streams would report)
+var illFormedKeys = []string{"a\xffb", "a\xfeb", "\xfe", "k\xc0\x80"}
+
+func (p *Prog) freshKey() string {
+	switch p.prof {
+	case "C05", "C06", "C08", "C10", "C11":
+		if p.r.chance(0.08) {
+			return pickOf(p.r, illFormedKeys)
+		}
+	}
+	return pickOf(p.r, heapKeys)
+}
+
 func (p *Prog) key(ob at.Object) string {
 	if ob != nil && ob.Count() > 0 && p.r.chance(0.6) {
 		ks := ob.Keys()
@@ -893,7 +936,7 @@ func (p *Prog) key(ob at.Object) string {
 			return pickOf(p.r, all)
 		}
 	}
-	return pickOf(p.r, heapKeys)
+	return p.freshKey()
 }
 
 func (p *Prog) newContainer() {
@@ -912,27 +955,42 @@ func (p *Prog) newContainer() {
 		p.do(&Op{Name: "NewListOf", Vals: []Operand{p.value(-1)}, I: cnt})
 		return
 	}
+	// derived structures (user types embedding List / Object, registered with Init) take the place of plain containers now and
+	// then in the profiles whose operations must treat them as what they are: lists and objects (the model does not distinguish)
+	derived := false
+	switch p.prof {
+	case "C10", "C11", "C12x", "C13x", "C14x":
+		derived = p.r.chance(0.15)
+	}
 	if p.r.chance(0.5) {
 		n := p.r.Intn(5)
 		var vs []Operand
 		for i := 0; i < n; i++ {
 			vs = append(vs, p.value(-1))
 		}
-		p.do(&Op{Name: "NewList", Vals: vs})
+		p.do(&Op{Name: "NewList", Vals: vs, Derived: derived})
 	} else {
 		n := p.r.Intn(4)
 		var vs []Operand
 		seen := map[string]bool{}
 		for i := 0; i < n; i++ {
-			k := pickOf(p.r, heapKeys)
+			k := p.freshKey()
 			if seen[k] && p.r.chance(0.7) {
 				continue
 			}
 			seen[k] = true
 			vs = append(vs, Operand{V: vstr(k)}, p.value(-1))
 		}
-		p.do(&Op{Name: "NewObject", Vals: vs})
+		p.do(&Op{Name: "NewObject", Vals: vs, Derived: derived})
 	}
+}
+
+func isDerived(x any) bool {
+	switch x.(type) {
+	case *MyList, *MyList2, *MyObj, *MyObj2:
+		return true
+	}
+	return false
 }
 
 // one random list op on register r (in the domain the properties pin down)
@@ -1015,7 +1073,18 @@ func (p *Prog) listOp(r int) {
 		p.do(&Op{Name: "LSubList", R: r, S: s, E: e})
 	case 15, 16:
 		ls := p.listRegs()
-		p.do(&Op{Name: "LConcat", R: r, A: pickOf(p.r, ls)})
+		// (Concat with a derived structure as ARGUMENT type-asserts the implementation type: outside every property)
+		var plain []int
+		for _, x := range ls {
+			if !isDerived(p.m.vars[x]) {
+				plain = append(plain, x)
+			}
+		}
+		if len(plain) > 0 {
+			p.do(&Op{Name: "LConcat", R: r, A: pickOf(p.r, plain)})
+		} else {
+			p.do(&Op{Name: "LCount", R: r})
+		}
 	case 17:
 		p.do(&Op{Name: "LGet", R: r, I: p.boundaryIndex(n)})
 	case 18:
@@ -1417,6 +1486,14 @@ func heapProgramBody(p *Prog, r *R, prof string) {
 		// receiver with a growth history -> derive once or twice -> mutate any participant -> observe all
 		p.do(&Op{Name: "NewList", Vals: nil})
 		p.growthHistory(0)
+		if r.chance(0.06) {
+			// a long receiver (a derivation may change strategy with the size: sharing until the first write, chunked copies)
+			var vs []Operand
+			for k, nk := 0, pickOf(r, []int{60, 64, 65, 100, 130, 257}); k < nk; k++ {
+				vs = append(vs, p.scalar())
+			}
+			p.do(&Op{Name: "LAdd", R: 0, Vals: vs})
+		}
 		p.newContainer()
 		if r.chance(0.5) {
 			p.newContainer()
@@ -1512,6 +1589,23 @@ func heapProgramBody(p *Prog, r *R, prof string) {
 			if r.chance(0.4) {
 				p.do(&Op{Name: "NewObject", Vals: []Operand{{V: vstr("long")}, {IsReg: true, Reg: long}}})
 				src = len(p.m.vars) - 1
+			}
+		case 2:
+			// a deep chain (copy strategies may change with the depth): 130-150 levels, lists and objects mixed; the innermost
+			// container stays a variable, so that the mutations below can reach the bottom of either side (one program in a hundred:
+			// the canonical hash after each of the ~150 steps is quadratic in the depth on the model side)
+			if r.chance(0.07) {
+				p.do(&Op{Name: "NewList", Vals: []Operand{p.scalar()}})
+				cur := len(p.m.vars) - 1
+				for k, d := 0, 130+r.Intn(21); k < d; k++ {
+					if r.chance(0.5) {
+						p.do(&Op{Name: "NewList", Vals: []Operand{{IsReg: true, Reg: cur}}})
+					} else {
+						p.do(&Op{Name: "NewObject", Vals: []Operand{{V: vstr("k")}, {IsReg: true, Reg: cur}}})
+					}
+					cur = len(p.m.vars) - 1
+				}
+				src = cur
 			}
 		case 1:
 			// derived structures (user types embedding List / Object) stored as a direct field, as a list element, and nested
@@ -1683,6 +1777,14 @@ func heapProgramBody(p *Prog, r *R, prof string) {
 				}
 				if (oc1 == "(Ret (OKind KUndefined))") != (oc2 == "Pan") {
 					p.m.fail("TypeOfTF(%q)=%s but GetTF gives %s", tf, oc1, oc2)
+				}
+				// the same path again after some live container (often one on the path) was modified: a read has no memory
+				if r.chance(0.3) && !p.broken {
+					for k := 1 + r.Intn(2); k > 0; k-- {
+						p.xMutate()
+					}
+					p.do(&Op{Name: "GetTF", R: rr, TF: tf})
+					p.do(&Op{Name: "TypeOfTF", R: rr, TF: tf})
 				}
 				// a path with an empty segment (or shorter than one segment) must be Undefined
 				if hasEmptySegment(tf) && oc1 != "(Ret (OKind KUndefined))" {
